@@ -580,6 +580,9 @@ func (d *concDir) Remove(kind string, id uint64) error {
 }
 func (d *concDir) Stats() (uint64, uint64) {
 	role, _ := concRole()
+	if role != "U" {
+		d.e.perturb(role)
+	}
 	a, b := d.inner.Stats()
 	d.e.rec(role, "stats")
 	d.e.perturb(role)
@@ -752,6 +755,12 @@ func concChild(scFile string) error {
 			role, _ := concRole()
 			if e.chill.Load() == nil && ev.Chill != nil {
 				e.chill.Store(ev.Chill)
+			}
+			if role != "U" && role != "C" {
+				// also BEFORE the event is recorded: the loops make effects visible to each other
+				// (closed watcher channels) before they fire the event, and the skeleton must
+				// accept the other goroutine's events that fall in between
+				e.perturb(role)
 			}
 			switch ev.Kind {
 			case index.EventKindPersisterProgress:
